@@ -130,7 +130,8 @@ Start ==
                IF c.lo = c.up
                THEN /\ n' = c.l2 /\ pc' = "alloc" /\ UNCHANGED <<calls, fate, drops, hdr, hdrops, blk, vecbuf, result>>
                ELSE /\ pc' = "collecting" /\ vecbuf' = "live" /\ UNCHANGED <<n, calls, fate, drops, hdr, hdrops, blk, result>>
-         \* observers: the panic propagates, nothing else happens (the handle and its value pre-exist)
+         \* observers: the panic (cases 49..: the error of a failing formatter sink or payload impl) propagates, nothing else
+         \* happens (the handles and their values pre-exist)
          [] c.ctor = "observe" -> /\ result' = "panic" /\ pc' = "done"
                                   /\ UNCHANGED <<n, calls, fate, drops, hdr, hdrops, blk, vecbuf>>
          \* last release with a panicking destructor: drop_slow's Box frees the block during the unwind
